@@ -1,10 +1,12 @@
 //! Reference models. They never call Kolibrie code.
 pub mod sparql_ast;
 pub mod sparql_eval;
+pub mod expiry_fixpoint;
 
 /// Self-tests of the reference models against hand-computed micro cases.
 pub fn selftest() -> Vec<String> {
     let mut errs = Vec::new();
     errs.extend(sparql_eval::selftest());
+    errs.extend(expiry_fixpoint::selftest());
     errs
 }
